@@ -67,3 +67,57 @@ Proof.
   - intros c r A. apply word_boundary; assumption.
   - intros k2 rest U S2. apply word_case; assumption.
 Qed.
+
+(* ---- literal-string classes and bracket classes *)
+Definition string_entry_ok (e : string * list (list ascii) * bool) : bool :=
+  let '(_, pats, fold) := e in if fold then forallb (fun p => text_eqb (upper p) p) pats else true.
+Definition halves_of (brackets : list ascii) : list ascii * list ascii :=
+  let bn := drop_blanks brackets in (firstn (Nat.div2 (List.length bn)) bn, skipn (Nat.div2 (List.length bn)) bn).
+Definition bracket_entry_ok (e : string * list ascii * bool * bool) : bool :=
+  let '(_, br, _, _) := e in
+  let '(l, r) := halves_of br in
+  negb (Nat.odd (List.length (drop_blanks br))) && Nat.eqb (List.length r) (List.length l) && solidb l && solidb (rev r).
+
+Lemma string_classes_ok : forallb string_entry_ok string_classes = true.
+Proof. vm_compute. reflexivity. Qed.
+Lemma bracket_classes_ok : forallb bracket_entry_ok bracket_classes = true.
+Proof. vm_compute. reflexivity. Qed.
+
+(* every live literal-string class: each of its patterns is matched and returned as it is (the printed text of the
+   node), in any case when the class folds; nothing else is accepted *)
+Theorem live_string_classes cls pats fold : In (cls, pats, fold) string_classes ->
+  (forall p, In p pats -> strings_match pats fold p = Some p) /\
+  (fold = true -> forall s s', upper s = upper s' -> strings_match pats fold s = strings_match pats fold s') /\
+  (forall s u, strings_match pats fold s = Some u -> In u pats /\ u = (if fold then upper s else s)).
+Proof.
+  intros H. pose proof string_classes_ok as OK. rewrite forallb_forall in OK. specialize (OK _ H). cbn in OK.
+  repeat split.
+  - intros p I. apply strings_roundtrip; [exact I|]. intros ->. rewrite forallb_forall in OK. apply text_eqb_eq. apply OK. exact I.
+  - intros -> s s' E. apply strings_case. exact E.
+  - apply (strings_sound pats fold s u H0).
+  - apply (strings_sound pats fold s u H0).
+Qed.
+
+(* every live bracket class: left ++ inner ++ right is matched again with the same inner text; the empty pair is
+   accepted where the content is optional; what is accepted is bracketed *)
+Theorem live_bracket_classes cls br has req : In (cls, br, has, req) bracket_classes ->
+  let l := fst (halves_of br) in let r := snd (halves_of br) in
+  (forall inner, has = true -> starts_solid inner -> bracket_match br has req (bracket_tostr br (BIn inner)) = BIn inner) /\
+  (req = false -> bracket_match br has req (bracket_tostr br BEmpty) = BEmpty) /\
+  (forall s inner, bracket_match br has req s = BIn inner ->
+     starts_with l (strip s) = true /\ ends_with r (strip s) = true /\ has = true /\ inner <> []).
+Proof.
+  intros H l r. pose proof bracket_classes_ok as OK. rewrite forallb_forall in OK. specialize (OK _ H).
+  unfold bracket_entry_ok in OK. fold l r in OK. unfold halves_of in *. cbn [fst snd] in *.
+  set (bn := drop_blanks br) in *.
+  apply andb_true_iff in OK as [OK RS]. apply andb_true_iff in OK as [OK LS]. apply andb_true_iff in OK as [EV SM].
+  apply Nat.eqb_eq in SM. apply solidb_ok in LS. apply solidb_ok in RS.
+  assert (HV : drop_blanks br = l ++ r) by (unfold l, r; fold bn; now rewrite firstn_skipn).
+  repeat split.
+  - intros inner -> IS. apply (bracket_roundtrip br l r HV SM LS RS inner req IS).
+  - intros ->. apply (bracket_roundtrip_empty br l r HV SM LS RS has).
+  - apply (bracket_sound br l r HV SM has req s inner H0).
+  - apply (bracket_sound br l r HV SM has req s inner H0).
+  - apply (bracket_sound br l r HV SM has req s inner H0).
+  - apply (bracket_sound br l r HV SM has req s inner H0).
+Qed.
